@@ -69,6 +69,30 @@ def piecea(prog, owner):
     return out if len(ms) == 3 and len(out) == 3 else {}
 
 
+def _mgr_built_with(prog, mod):
+    """The slot manager of the record file of module `mod` is constructed with that module's REC_SIZE_ARY."""
+    from .fields import PIECEMGR
+    news = prog.find(name="new", self_adt=PIECEMGR)
+    if len(news) != 1:
+        return False
+    sites = [(c, b) for c, b in prog.callers().get(news[0].id, []) if c.module == mod]
+    if len(sites) != 1:
+        return False
+    c, b = sites[0]
+    want = None
+    for blk in c.blocks:
+        for st in blk["stmts"]:
+            if st["s"] == "assign" and st["rhs"]["rv"] == "use" and st["rhs"]["a"].get("cdef") == mod + "::REC_SIZE_ARY":
+                want = tuple(int(x) for x in st["rhs"]["a"]["v"].get("ints", []))
+    if not want:
+        return False
+    for a in c.term(b)["args"]:
+        o = leaf_origins(prog, c, a, at=b)
+        if o and all(x.kind == "const" and x.data == want for x in o):
+            return True
+    return False
+
+
 def _check_own(ctx):
     prog = ctx.prog
     R = Roles(prog)
@@ -110,7 +134,15 @@ def _check_own(ctx):
             for st in blk["stmts"]:
                 if st["s"] == "assign" and st["rhs"]["rv"] == "use" and st["rhs"]["a"].get("cdef"):
                     tab = st["rhs"]["a"]["cdef"]
-        ctx.check(tab == mod + "::REC_SIZE_ARY", "free-count", kind + ":own-table", "%s iterates %s, expected its own size-class table" % (m, tab), where=where(f))
+        # ... named directly, or through the table its own file's slot manager was built with (class-slot rules of C06
+        # decide that the manager's table is the file's)
+        mgr_tab = lambda os_: bool(os_) and all(x.proj and x.proj[-1].endswith(fq(prog, "MGR.sizes")) and len([p_ for p_ in x.proj if p_.endswith(fq(prog, "MGR.sizes"))]) == 1
+                                                 and (x.kind == "param" and x.data == 1 or x.kind == "call" and (x.data.get("callee") or "").endswith(("borrow_mut", "borrow", "deref", "deref_mut"))) for x in os_)
+        via_mgr = False
+        if tab is None:
+            its = [(bb, tt) for bb, tt in f.calls() if (tt.get("callee") or "").endswith(("IntoIterator::into_iter", "]>::iter", "::iter")) and not f.is_cleanup(bb)]
+            via_mgr = len(its) == 1 and mgr_tab(leaf_origins(prog, f, its[0][1]["args"][0], at=its[0][0], terminal_only=True)) and _mgr_built_with(prog, mod)
+        ctx.check(tab == mod + "::REC_SIZE_ARY" or via_mgr, "free-count", kind + ":own-table", "%s iterates %s, expected its own size-class table" % (m, tab), where=where(f))
         # the per-class body is either the body of a loop in f or a closure mapped over the table
         sites = calls_to(prog, f, target_fn=fc)
         body, elem_ok = f, None
@@ -139,7 +171,7 @@ def _check_own(ctx):
             ok = ok and len(ii) == 1
             if ok:
                 src = leaf_origins(prog, f, ii[0][1]["args"][0], at=ii[0][0], terminal_only=True)
-                ok = bool(src) and all(x.kind == "const" and isinstance(x.data, tuple) and len(x.data) == 16 for x in src)
+                ok = bool(src) and (all(x.kind == "const" and isinstance(x.data, tuple) and len(x.data) == 16 for x in src) or (via_mgr and mgr_tab(src)))
             # reported pair = (class, count)
             pairs = []
             for bb, blk in enumerate(body.blocks):
